@@ -384,7 +384,7 @@ theorem leaf_prediction_is_leaf_ols (solve : Solver) (hs : IsLeastSquares solve)
           ≤ d.lsResid (matFn rows) ((nFeatures : Int) + 1) beta' 0 (ys.length : Int) := by
   intro rows ys d
   refine ⟨Linear.nodeBeta solve (Linear.create solve nFeatures rows ys), ?_, ?_⟩
-  · simp [predictReglin, fitReglin, hl, rows, ys]
+  · simp [predictReglin, fitReglin, hl, rows, ys, predLeafIdx, predXRow, predBetaRow, fitLeaf]
   · intro beta'
     unfold Linear.create Linear.nodeBeta
     simp only
